@@ -965,6 +965,9 @@ class GK(G):
                                          ("implicit", ("prop", ("var", "o"), "f2"))]),
             ("fn", "site5", ["o"], [("let", "b", ("prop", ("var", "o"), "m3")), ("implicit", ("call", ("var", "b"), []))]),
             ("fn", "call0", ["f"], [("implicit", ("call", ("var", "f"), []))]),
+            # the value of an assignment expression is the assigned value, on the first execution and on every later one
+            ("fn", "site6", ["o", "v"], [("return", ("assign", ("prop", ("var", "o"), "f2"), ("var", "v")))]),
+            ("fn", "site7", ["o", "p", "v"], [("return", ("assign", ("prop", ("var", "o"), "f1"), ("assign", ("prop", ("var", "p"), "f1"), ("var", "v"))))]),
         ]
         out.extend(sites)
         objs = []
@@ -995,8 +998,14 @@ class GK(G):
                 out.append(guarded(("print", call) if safe else ("expr", call)))
             elif c < 32:
                 out.append(guarded(("print", ("call", ("var", "site3"), [ov])) if "f1" in k.all_fields() and "f1" not in k.shadows() else ("expr", ("call", ("var", "site3"), [ov]))))
-            elif c < 40:
+            elif c < 36:
                 out.append(guarded(("print", ("call", ("var", "site4"), [ov, self.expr("num", 1)]))))
+            elif c < 40:
+                if self.chance(60):
+                    out.append(guarded(("print", ("call", ("var", "site6"), [ov, self.expr("num", 1)]))))
+                else:
+                    o3, _k3 = self.pick(objs)
+                    out.append(guarded(("print", ("call", ("var", "site7"), [ov, ("var", o3), self.expr("num", 1)]))))
             elif c < 48:
                 safe = "m3" in k.all_methods() and not self.returns_closure(k, "m3")
                 call = ("call", ("var", "site5"), [ov])
@@ -1099,8 +1108,11 @@ class GI(GK):
             out.append(("let", cv, ("call", ("var", fname), [("num", float(k))])))
             out.append(("let", ov, ("call", ("var", cv), [self.expr("num", 1)])))
             for _ in range(self.i(1, 3)):
-                c = self.i(0, 3)
-                if c == 0:
+                c = self.i(0, 4)
+                if c == 4:
+                    out.append(("try", [("print", ("call", ("var", "site6"), [("var", ov), self.expr("num", 1)]))],
+                                [("e", None, [("print", ("str", "no f2"))])]))
+                elif c == 0:
                     out.append(("print", ("call", ("var", "site1"), [("var", ov)])))
                 elif c == 1:
                     out.append(("print", ("call", ("var", "site3"), [("var", ov)])))
